@@ -148,6 +148,12 @@ func (s *Server) proxyHTTPRoute(c *gin.Context) {
 	}
 
 	s.httpProxy.ServeHTTP(c.Writer, c.Request, endpointID)
+
+	// This is a 'no route' handler, so if the upstream responds 404 with an
+	// empty body, nothing has been written yet and gin would replace the
+	// response with its own default 404. Therefore write the upstream's
+	// header now.
+	c.Writer.WriteHeaderNow()
 }
 
 func (s *Server) proxyTCPRoute(c *gin.Context) {
